@@ -207,7 +207,7 @@ impl CheckDef for Sp {
 }
 
 pub fn run(ctx: &mut Ctx) {
-    ctx.rule("SP: tx ring initial 64 B..64 KiB, maximum from initial/2 to 1 MiB (incl. max < initial, partial last step); the writer writes as fast as poll_write allows (1 B..256 KiB per call, chunked or not); scripted peer ACK schedules: prompt, slow, one to three segments at a time, stops for good; window large/small. Oracle: accepted - acked <= max(initial, max) after every accepted write; a write is parked only on a full ring (occupancy equals one of initial*2^k capped) and resumes no later than the first ACK that frees space; write errors only after the connection ended; wire-content oracle across growth steps. non-trivial = writer parked >= 1x and >= 1 growth step; distinct by hash of (occupancy bucket, parked) sequence");
+    ctx.rule("SP: tx ring initial 64 B..64 KiB, maximum from initial/2 to 1 MiB (incl. max < initial, partial last step); the writer writes as fast as poll_write allows (1 B..256 KiB per call, chunked or not; one chunk size in eight abandons a blocked write after 25 ms and retries it with a fresh waker, the abandoned attempt's waker going dead); scripted peer ACK schedules: prompt, slow, one to three segments at a time, stops for good; window large/small. Oracle: accepted - acked <= max(initial, max) after every accepted write; a write is parked only on a full ring (occupancy equals one of initial*2^k capped) and resumes no later than the first ACK that frees space; write errors only after the connection ended; wire-content oracle across growth steps. non-trivial = writer parked >= 1x and >= 1 growth step; distinct by hash of (occupancy bucket, parked) sequence");
     ctx.replay_corpus::<Sp>();
     ctx.run_generated::<Sp>(ctx.tier.pick(15_000, 600_000));
     crate::props::c19t::run(ctx);
